@@ -8,6 +8,7 @@ import (
 	"strconv"
 	"strings"
 	"sync/atomic"
+	"time"
 
 	"github.com/pinealctx/neptune/syncx/semap"
 
@@ -39,21 +40,23 @@ type call struct {
 
 // counters incremented by the callers themselves right after Acquire* returned nil (critical-section monitor)
 type section struct {
-	r, w int32
-	bad  int32 // set by a caller that found the section already occupied incompatibly when it entered
+	r, w   int32
+	bad    int32 // set by a caller that found the section occupied incompatibly when it entered: 1 writer not alone, 2 readers over ratio
+	nonNil int32 // an Acquire* returned an error together with a non-nil *Weighted
 }
 
 type world struct {
-	m      semap.SemMapper
-	rw     int
-	s      *sched.S
-	calls  map[int]*call
-	order  []*call
-	keys   []string // tokens in order of first use
-	sec    map[string]*section
-	event  int
-	hits   []corr.Hit
-	hitSet map[string]bool
+	m       semap.SemMapper
+	variant string
+	rw      int
+	s       *sched.S
+	calls   map[int]*call
+	order   []*call
+	keys    []string // tokens in order of first use
+	sec     map[string]*section
+	event   int
+	hits    []corr.Hit
+	hitSet  map[string]bool
 }
 
 func (w *world) hit(site, what string) {
@@ -92,23 +95,52 @@ func natCanon(s string, maxLen int) (int, bool) {
 	return n, true
 }
 
-func parseKey(tok string) (interface{}, bool) {
+// structKey is a comparable struct used as a key (single map only: remap cannot route it)
+type structKey struct {
+	A int
+	B string
+}
+
+func intCanon(body string, bits int) (int64, bool) {
+	if len(body) == 0 || len(body) > 20 {
+		return 0, false
+	}
+	v, err := strconv.ParseInt(body, 10, bits)
+	if err != nil || strconv.FormatInt(v, 10) != body {
+		return 0, false
+	}
+	return v, true
+}
+
+// parseKey: `i<int>` int, `l<int64>` int64, `h<int32>` int32, `b<0..255>` uint8, `s<text>` string,
+// `t<int>:<text>` struct{A int; B string} (single map only). All are valid Go map keys with reflexive equality.
+func parseKey(tok, variant string) (interface{}, bool) {
 	if len(tok) == 0 {
 		return nil, false
 	}
+	body := tok[1:]
 	switch tok[0] {
 	case 's':
-		return tok[1:], true
+		return body, true
 	case 'i':
-		body := tok[1:]
-		if len(body) > 20 {
+		v, ok := intCanon(body, 64)
+		return int(v), ok
+	case 'l':
+		v, ok := intCanon(body, 64)
+		return v, ok
+	case 'h':
+		v, ok := intCanon(body, 32)
+		return int32(v), ok
+	case 'b':
+		v, ok := intCanon(body, 64)
+		return uint8(v), ok && v >= 0 && v <= 255
+	case 't':
+		i := strings.IndexByte(body, ':')
+		if i < 0 || variant != "single" {
 			return nil, false
 		}
-		v, err := strconv.ParseInt(body, 10, 64)
-		if err != nil || strconv.FormatInt(v, 10) != body {
-			return nil, false
-		}
-		return int(v), true
+		v, ok := intCanon(body[:i], 64)
+		return structKey{A: int(v), B: body[i+1:]}, ok
 	}
 	return nil, false
 }
@@ -133,7 +165,9 @@ func newWorld(variant string, rw, prime int) *world {
 	case "xhash":
 		m = semap.NewWideXHashSemMap(opts...)
 	}
-	w := &world{m: m, rw: rw, s: sched.New(), calls: map[int]*call{}, sec: map[string]*section{}, hitSet: map[string]bool{}}
+	w := &world{m: m, variant: variant, rw: rw, s: sched.New(), calls: map[int]*call{}, sec: map[string]*section{}, hitSet: map[string]bool{}}
+	// a long deadline: under machine load quiescence may take long; running out of it is a harness error (exit 2), never a verdict
+	w.s.Timeout = 90 * time.Second
 	if rw < 1 {
 		// only reachable through the package default: the property (and every monitor below) presupposes rwRatio >= 1
 		w.hit("default-ratio-below-1", fmt.Sprintf("NewSemMap without WithRwRatio uses rwRatio %d: no reader can ever be admitted", rw))
@@ -220,6 +254,9 @@ func (w *world) acquire(tid int, tok string, key interface{}, write, precancelle
 			sw, err = w.m.AcquireRead(ctx, key)
 		}
 		if err != nil {
+			if sw != nil {
+				atomic.StoreInt32(&sec.nonNil, 1)
+			}
 			if err == context.Canceled {
 				return "ctx"
 			}
@@ -235,8 +272,10 @@ func (w *world) acquire(tid int, tok string, key interface{}, write, precancelle
 			r = atomic.AddInt32(&sec.r, 1)
 			wr = atomic.LoadInt32(&sec.w)
 		}
-		if wr > 1 || (wr == 1 && r > 0) || r > rw {
+		if wr > 1 || (wr >= 1 && r > 0) {
 			atomic.StoreInt32(&sec.bad, 1)
+		} else if r > rw {
+			atomic.StoreInt32(&sec.bad, 2)
 		}
 		return "nil"
 	})
@@ -394,8 +433,17 @@ func (w *world) monitors(line string) {
 		if readers > w.rw {
 			w.hit("excl-readers-over-ratio", desc)
 		}
-		// the callers' own view when they entered (sec.bad) is reported through the two keys above at the same event;
-		// the counters they maintain must agree with the harness' bookkeeping
+		// the callers' own view at the moment they entered (independent of the harness' bookkeeping)
+		switch atomic.SwapInt32(&sec.bad, 0) {
+		case 1:
+			w.hit("excl-writer-not-alone", desc+"; seen by the entering caller itself")
+		case 2:
+			w.hit("excl-readers-over-ratio", desc+"; seen by the entering caller itself")
+		}
+		if atomic.SwapInt32(&sec.nonNil, 0) != 0 {
+			w.hit("non-nil-on-error", desc+"; an Acquire* returned an error together with a non-nil *Weighted")
+		}
+		// the counters the callers maintain must agree with the harness' bookkeeping
 		if int(atomic.LoadInt32(&sec.r)) != readers || int(atomic.LoadInt32(&sec.w)) != writers {
 			w.hit("excl-section-counter", desc+fmt.Sprintf(" section counters r=%d w=%d", atomic.LoadInt32(&sec.r), atomic.LoadInt32(&sec.w)))
 		}
@@ -416,12 +464,25 @@ func (w *world) monitors(line string) {
 		}
 		// no residue: nobody inside, nobody blocked => no entry
 		if len(ins) == 0 && len(parked) == 0 {
-			if k, ok := parseKey(tok); ok {
+			if k, ok := parseKey(tok, w.variant); ok {
 				if _, _, present := semap.VerifKeyState(w.m, k); present {
 					w.hit("residue-entry-kept", desc+"; the container still has an entry for the key")
 				}
 			}
 		}
+	}
+}
+
+// idleEntries: when nobody is inside or blocked on any key, the container must be empty — whatever dynamic type or
+// value the keys had when the entries were created (a per-key lookup would miss an entry stored under another key).
+func (w *world) idleEntries(line string) {
+	for _, c := range w.order {
+		if c.status == stInside || c.status == stParked {
+			return
+		}
+	}
+	if n := semap.VerifEntries(w.m); n != 0 {
+		w.hit("residue-entry-kept", fmt.Sprintf("after `%s` nobody is inside or blocked on any key, yet the container keeps %d entries", line, n))
 	}
 }
 
@@ -458,6 +519,19 @@ func runCase(c corr.Case) (res corr.Result) {
 			if len(f) == 0 {
 				return "bad-op"
 			}
+			if f[0] == "stress" { // genuinely parallel run in a child process; also ends the current map
+				if !validStress(f) {
+					return "bad-op"
+				}
+				if w != nil {
+					w.cleanup()
+					res.Hits = append(res.Hits, w.hits...)
+					w = nil
+				}
+				o, hits := runStress(f)
+				res.Hits = append(res.Hits, hits...)
+				return o
+			}
 			if f[0] == "new" {
 				if len(f) != 4 || (f[1] != "single" && f[1] != "wide" && f[1] != "xhash") {
 					return "bad-op"
@@ -484,12 +558,13 @@ func runCase(c corr.Case) (res corr.Result) {
 			switch {
 			case len(f) == 3 && (f[0] == "acqR" || f[0] == "acqW" || f[0] == "acqRx" || f[0] == "acqWx"):
 				tid, ok := natCanon(f[1], 9)
-				key, okk := parseKey(f[2])
+				key, okk := parseKey(f[2], w.variant)
 				if !ok || !okk || w.calls[tid] != nil {
 					return "bad-op"
 				}
 				o := w.acquire(tid, f[2], key, f[0][3] == 'W', strings.HasSuffix(f[0], "x"))
 				w.monitors(line)
+				w.idleEntries(line)
 				return o
 			case len(f) == 2 && f[0] == "rel":
 				tid, ok := natCanon(f[1], 9)
@@ -498,6 +573,7 @@ func runCase(c corr.Case) (res corr.Result) {
 				}
 				o := w.release(w.calls[tid])
 				w.monitors(line)
+				w.idleEntries(line)
 				return o
 			case len(f) == 3 && f[0] == "relx":
 				tid, ok := natCanon(f[1], 9)
@@ -507,6 +583,7 @@ func runCase(c corr.Case) (res corr.Result) {
 				}
 				o := w.relRace(w.calls[tid], w.calls[uid])
 				w.monitors(line)
+				w.idleEntries(line)
 				return o
 			case len(f) == 2 && f[0] == "cancel":
 				tid, ok := natCanon(f[1], 9)
@@ -515,9 +592,10 @@ func runCase(c corr.Case) (res corr.Result) {
 				}
 				o := w.doCancel(w.calls[tid])
 				w.monitors(line)
+				w.idleEntries(line)
 				return o
 			case len(f) == 2 && f[0] == "inside":
-				if _, ok := parseKey(f[1]); !ok {
+				if _, ok := parseKey(f[1], w.variant); !ok {
 					return "bad-op"
 				}
 				if s := w.sec[f[1]]; s != nil {
@@ -550,7 +628,7 @@ func runCase(c corr.Case) (res corr.Result) {
 				}
 				return fmt.Sprintf("cur=%d waiters=%d inmap=%d", held, waiters, p)
 			case len(f) == 2 && f[0] == "state":
-				k, ok := parseKey(f[1])
+				k, ok := parseKey(f[1], w.variant)
 				if !ok {
 					return "bad-op"
 				}
